@@ -453,7 +453,7 @@ def afterObs (st : SrvSt) (elec : Option U128) (master : Option Nat) (sess : Lis
   -- C09 monitors: the footprint of a session whose RPC ended is gone; a session that has just
   -- connected has negotiated nothing yet
   let st := match sess.find? (fun (o : ObsSess) => st.ended.contains o.c) with
-    | some o => st.monfail "c09" s!"session {o.c} is still known to the server after its RPC ended"
+    | some o => (st.monfail "c09" s!"session {o.c} is still known to the server after its RPC ended").monfail "c10" s!"session {o.c} is still known to the server after its client went away and its RPC ended (later sessions are checked against its parameters)"
     | none => st
   let st := match st.justConnected with
     | some n =>
